@@ -23,6 +23,14 @@ package task
 //@     (a == INACTIVE || a == PARTIAL || a == ACTIVE) && (b == INACTIVE || b == PARTIAL || b == ACTIVE) && a != b ==> a.X(b) == PARTIAL
 //@ lemma SX_closed C11: forall a Status, b Status :: validStatus(a.X(b))
 
+// C02 (every critical task is commanded - a task is never silently left out of a command): the target list has exactly one
+// target per task, in order, whatever state the task is in (a task that lost its executor cannot be reached: the command
+// to it fails, and that failure is what fails the transition)
+//@ func (m Tasks) GetMesosCommandTargets() (receivers []controlcommands.MesosCommandTarget, err error)
+//@   property C02
+//@   ensures err == nil ==> len(receivers) == len(m)
+//@   loop 1 invariant #i >= -1 && #i < len(m) && len(receivers) == #i + 1 && fresh(receivers)
+
 // ---------------------------------------------------------------------------------------------------------
 // C02: a transition fails iff a CRITICAL task failed. In the per-target error loop of a multi-target response an error
 // is counted as critical only if the task's own traits or its role's task traits say critical; the function returns an
@@ -500,7 +508,7 @@ package task
 // Unlock without the Lock is a fatal runtime error that takes the core - and with it the control of every OTHER
 // environment - down (this happened when nothing was left to launch; repaired by a fix: commit).
 //@ func (m *Manager) acquireTasks(envId uid.ID, taskDescriptors Descriptors) (err error)
-//@   property C04
+//@   property C04 C06
 //@   ghostvar held bool = false
 //@   on call (*sync.Mutex).Lock when recvfield == "deployMu" : assert !held ; held = true
 //@   on call (*sync.Mutex).Unlock when recvfield == "deployMu" : assert held ; held = false
@@ -521,6 +529,14 @@ package task
 //@   loop 14 invariant !held
 //@   loop 15 invariant !held
 //@   ensures !held
+// C06 ("tasks that never became owned stay unowned and fall to the next cleanup"): when the deployment is given up, every
+// task that was launched for it is detached from the role it was launched for - a task that keeps its parent counts as
+// owned by the environment whose creation failed, and neither its teardown (the roles never received the task) nor
+// Cleanup / KillTasks (which skip owned tasks) will ever reach it
+//@   ghostvar unp map[*Task]bool = empty
+//@   [C06] on call (*Task).SetParent when arg1 == nil : unp[arg0] = true
+//@   [C06] loop 12 invariant forall x *Task :: #visited[x] ==> unp[x]
+//@   [C06] on call builtin.append when argname0 == "deployedTaskIds" : assert unp[taskPtr]
 
 // C02: a task's failure must fail a transition iff its own traits or its role's task traits say critical
 //@ func isTaskOrRoleCritical(task *Task) (c bool)
@@ -547,6 +563,20 @@ package task
 //@   requires status.AgentID != nil ==> status.AgentID.Value != ""
 //@   on store task.Task.executorId : assert value != ""
 //@   on store task.Task.agentId : assert value != ""
+
+// ---------------------------------------------------------------------------------------------------------
+// C05 ("offers that are not used are declined"): the goroutine that handles one offer answers it itself once a task was
+// attempted on it. Building a task takes the offer off the list of offers to decline as soon as the task object exists,
+// before the steps that can still fail - so an offer on which a task was attempted and nothing launched is in nobody's
+// books any more unless the (possibly empty) ACCEPT goes out.
+//@ closure (*schedulerState).resourceOffers #1#1
+//@   property C05
+//@   opt callee-requires=assume
+//@   ghostvar attempted bool = false
+//@   ghostvar answered bool = false
+//@   on aftercall makeTaskForMesosResources : attempted = true
+//@   on call calls.Accept : answered = true
+//@   on return : assert attempted ==> answered
 
 // ---------------------------------------------------------------------------------------------------------
 // C05: the ports handed to a task come from the offer: every dynamic port and the control port is the minimum of what is
